@@ -586,6 +586,8 @@ def handleAllocationDone (m : M) (hasExisting hasMissing : Bool) : M :=
   let m := onSt m fun s => if hasMissing && s.bf.isSome then { s with bf := none, persisted := none } else s
   let fresh (m : M) : M :=
     let m := onSt m fun s => (({ s with bf := some (List.replicate s.n false) }).resetCompletion).markPaddingPieces
+    -- a manual verification of files that did not exist ends here, stopped (fix for finding C04-F4)
+    if m.1.doVerify then onSt m fun s => ({ s with doVerify := false }).stop false else
     let (s, c) := m.1.checkCompletion
     let m : M := (s, m.2)
     if c && m.1.cfg.stopAfter then onSt m (·.stop false) else ready m
